@@ -36,14 +36,15 @@ def damage(text, rng):
     if r < 0.5:
         return text + " " + R.render_tr(rng.choice([1, 2, 3]), rng)
     if r < 0.6:
-        return R.render_sec([rng.randint(1, 36)], [], rng.random() < 0.5, rng) + " " + text
+        return R.render_sec([rng.choice([rng.randint(1, 36), rng.randint(37, 999)])], [], rng.random() < 0.5, rng) + " " + text
     return text
 
 
 def doc_cases(ctx, shapes, per_shape, prefix="d"):
     cases = []
     for i, a in enumerate(shapes):
-        doc = plssdoc.concretise(a, ctx.rng, vary_tr=True)
+        # (a section reference may carry any number the pattern reads: two-digit numbers above 36, three-digit numbers)
+        doc = plssdoc.concretise(a, ctx.rng, vary_tr=True, max_sec=ctx.rng.choice([36, 36, 36, 99, 999]))
         for k in range(per_shape):
             text = damage(plssdoc.render_doc(doc, ctx.rng), ctx.rng)
             words = text.split(" ")
